@@ -112,7 +112,7 @@ class Agent:
     """Policy knobs (all optional, all driven by the scenario):
        cut(k, n, full_len) -> number of repeater bindings to keep in the k-th GETBULK answer
        faulty: dict oid -> oid | "eomv" replacing the successor function (stateless faulty agent)
-       script(req) -> None | dict(es=, ei=, vbs=) scripted reply
+       script(req) -> None | dict(es=, ei=, vbs=[, iddelta=]) scripted reply
        perturb(req, fields) -> fields   last-minute change of reqid / community / version / vbs
     """
 
@@ -143,6 +143,8 @@ class Agent:
         self.time_override = None
         self.boots_override = None
         self.v3_response_hook = None
+        self.force_report = None           # name of a usmStats counter: the next non-discovery request is answered with that Report
+        self.report_ctx_engine = None      # contextEngineID of Reports (default: the engine id; proxies / multi-context agents differ, it may be empty)
 
     # ---------------- clock
     def engine_time(self):
@@ -260,7 +262,7 @@ class Agent:
             es, ei, vbs = s["es"], s["ei"], s["vbs"]
         else:
             es, ei, vbs = self.answer(req)
-        return dict(ptype=RESPONSE, reqid=req["reqid"], es=es, ei=ei, vbs=list(vbs))
+        return dict(ptype=RESPONSE, reqid=req["reqid"] + (s or {}).get("iddelta", 0), es=es, ei=ei, vbs=list(vbs))
 
     # ---------------- USM (RFC 3414 §3.2)
     def _decrypt(self, sp, cipher):
@@ -285,6 +287,12 @@ class Agent:
             if self.on_discovery:
                 self.on_discovery(req)
             return self.report(req, "unknownEngineIDs", None, req["msgid"] + self.disco_delta, req.get("reqid", 0))
+        if self.force_report:
+            # scripted: answer this request with the given usmStats Report (once)
+            counter, self.force_report = self.force_report, None
+            self.stats[counter] += 1
+            req["verdict"] = "forced:" + counter
+            return self.report(req, counter, None, req["msgid"], req.get("reqid", 0))
         u = self.users.get(req["user"])
         if u is None:
             self.stats["unknownUserNames"] += 1
@@ -360,7 +368,7 @@ class Agent:
     def report(self, req, counter, u, msgid, reqid) -> bytes:
         vbs = [(USM_STATS[counter], enc_uint(self.stats[counter], 0x41))]
         pdu = build_pdu(REPORT, reqid, 0, 0, vbs)
-        scoped = build_scoped(self.engine, b"", pdu)
+        scoped = build_scoped(self.engine if self.report_ctx_engine is None else self.report_ctx_engine, b"", pdu)
         # RFC 3414 §3.2: notInTimeWindow reports are authenticated (authNoPriv); the others noAuthNoPriv
         flags = 1 if (u is not None and counter == "notInTimeWindows") else 0
         raw = self.secure(u, msgid, flags, scoped, user=(u.name if u is not None and flags else req.get("user", b"")))
